@@ -45,6 +45,12 @@ def stub_test(c_holder):
         import numpy as np
         c_holder["seen"].append([float(v) for v in x])
         h = np.array([float(v) for v in hist_for(len(x), c_holder["c"])])
+        c = c_holder["c"]
+        if c and (len(x) + c) % 2 == 1:
+            # a history need not stay down (it does not when the sample is not taken to be in random order, and the
+            # overall value is then its last entry): back to 1 two draws after the crossing
+            h[c + 1:] = 1.0
+            return float(h[-1]), h
         return float(min(h)), h
     return fn
 
